@@ -53,6 +53,9 @@ def main(argv):
         if prop == "M01":
             import memberchk
             return memberchk.replay(prop, rp) if rp else memberchk.check(prop, tier)
+        if prop == "B01":
+            import balancechk
+            return balancechk.replay(prop, rp) if rp else balancechk.check(prop, tier)
         if prop == "W01":
             import webhookchk
             return webhookchk.replay(prop, rp) if rp else webhookchk.check(prop, tier)
